@@ -5,6 +5,7 @@ from terms import ISet, tstr, pstr, is_const, const_val
 from rules.util import *
 from rules import tables
 from rules import lzbuf
+from rules import deflate_proto as dp
 from rules import c02
 from rules import deflate_cfg as dc
 
@@ -256,6 +257,8 @@ def run(ctx):
     c02.rule_result_discipline(ctx, cfg, r5)
     r6 = ctx.rule("R01.6", "LZ token buffer: what the writers lay down (token bytes, flag bits, slots per flag byte) is what compress_lz_codes takes up", floor=10, config=cfg)
     lzbuf.rule_lz_buffer(ctx, cfg, r6)
+    r9 = ctx.rule("R01.9", "window accounting: dict.size is clamped to LZ_DICT_SIZE - lookahead_size between every refill and every use as a distance bound", floor=2, config=cfg)
+    dp.rule_window_accounting(ctx, cfg, r9)
     r7 = ctx.rule("R01.7", "stored-block source position advances by exactly the bytes each block encoded", floor=2, config=cfg)
     rule_block_start(ctx, cfg, r7)
     from rules import c08
